@@ -34,9 +34,14 @@ AlterKinds == {"flip_sig", "flip_caveat", "flip_id", "truncate", "text_pad",   \
                "add_unknown", "add_gen", "add_time_past", "add_time_future",
                "add_user_other", "add_user_same",
                "mint_no_time", "mint_no_gen", "mint_no_user",
-               "mint_extra_unknown"}
+               "mint_extra_unknown",
+               \* a required caveat replaced by an unknown one whose text merely resembles it (the required text
+               \* followed by more characters, another letter case, other spacing): the token lacks a required
+               \* caveat and carries an unknown one
+               "mint_gen_near", "mint_user_near", "mint_time_near"}
 
-MintKinds == {"mint_no_time", "mint_no_gen", "mint_no_user", "mint_extra_unknown"}
+MintKinds == {"mint_no_time", "mint_no_gen", "mint_no_user", "mint_extra_unknown",
+              "mint_gen_near", "mint_user_near", "mint_time_near"}
 
 VARIABLES clock,      \* current instant
           tok,        \* the token in flight (or NoToken)
@@ -93,6 +98,9 @@ Alter(kind) ==
             [] kind = "mint_no_gen"     -> Mint(s, u, <<UserCav(u), TimeCav(exp)>>)
             [] kind = "mint_no_user"    -> Mint(s, u, <<Gen, TimeCav(exp)>>)
             [] kind = "mint_extra_unknown" -> Mint(s, u, <<Gen, UserCav(u), TimeCav(exp), UnknownCav>>)
+            [] kind = "mint_gen_near"   -> Mint(s, u, <<UnknownCav, UserCav(u), TimeCav(exp)>>)
+            [] kind = "mint_user_near"  -> Mint(s, u, <<Gen, UnknownCav, TimeCav(exp)>>)
+            [] kind = "mint_time_near"  -> Mint(s, u, <<Gen, UserCav(u), UnknownCav>>)
     /\ out' = [call |-> "alter", kind |-> kind]
     /\ UNCHANGED <<clock, origin>>
 
